@@ -303,7 +303,8 @@ class Oracle:
             bad("apy", {"view": [float(m.supply_apy), float(m.borrow_apy)], "raw": [float(want_s), float(want_b)]})
         # market balance (quantised to 1e-4 by the API)
         mb = m.get_market_balance()
-        if abs(F(mb.net_value) - (risk["supply"] - risk["debt"])) > Q4 or abs(F(mb.supplies_value) - risk["supply"]) > Q4 \
+        # net value is the difference of two figures each quantised to 1e-4, so it may be off by up to 1e-4 in total; the components by half of that
+        if abs(F(mb.net_value) - (risk["supply"] - risk["debt"])) > 2 * Q4 or abs(F(mb.supplies_value) - risk["supply"]) > Q4 \
                 or abs(F(mb.borrows_value) - risk["debt"]) > Q4 or abs(F(mb.collaterals_value) - risk["collateral"]) > Q4 \
                 or mb.supplies_count != len(sup) or mb.borrows_count != len(bor):
             bad("market_balance", {"view": [float(mb.net_value), float(mb.supplies_value), float(mb.borrows_value)],
